@@ -54,7 +54,10 @@ pub fn judge(events_path: &str) -> Leg {
             0xffff => "ffff",
             _ => "other",
         };
-        leg.class(format!("flags{}|type{:?}|len{}", fclass, m.opt(53), u.payload.len() / 128));
+        leg.class(format!("flags{}|type{:?}|len{}|{}", fclass, m.opt(53), u.payload.len() / 128, if ev["renewing"].as_bool() == Some(true) { "renewing" } else { "selecting" }));
+        if ev["renewing"].as_bool() == Some(true) {
+            leg.count("renewing_requests_judged", 1);
+        }
         let expect_dst = if want_bcast { Ipv4Addr::BROADCAST } else { m.yiaddr };
         if u.dst != expect_dst {
             leg.violation(
